@@ -401,7 +401,7 @@ func c13RealScripts() []c13Script {
 
 // ---- script grammar -------------------------------------------------------------
 
-func c13Scripts() []c13Script {
+func c13Scripts(thorough bool) []c13Script {
 	type goKind struct {
 		pre   []string
 		line  string
@@ -418,6 +418,10 @@ func c13Scripts() []c13Script {
 		{[]string{"setoption name Ponder value true"}, "go ponder wtime 1000 btime 1000", []mockSpec{{Polls: 1, Ponder: true}}, true},
 		{[]string{"setoption name Ponder value true"}, "go ponder wtime 1000 btime 1000", []mockSpec{{Polls: 1, Ponder: true, BlockAfter: true}}, true},
 		{[]string{"setoption name Ponder value true"}, "go ponder wtime 1000 btime 1000", []mockSpec{{Polls: 2, Ponder: true, Finish: true}}, true},
+	}
+	if thorough {
+		// more info lines than the output channel holds (back-pressure on the search while commands arrive)
+		kinds = append(kinds, goKind{nil, "go depth 6", []mockSpec{{Polls: 6}}, false})
 	}
 	var out []c13Script
 	for _, prefix := range [][]string{nil, {"isready"}} {
@@ -460,6 +464,9 @@ func c13Scripts() []c13Script {
 					suffixes = append(suffixes, []string{"isready"})
 					if ends {
 						suffixes = append(suffixes, []string{"go depth 1", "stop"})
+						if thorough {
+							suffixes = append(suffixes, []string{"position startpos moves e2e4", "go depth 1"}, []string{"ucinewgame", "setoption name Hash value 2", "isready"})
+						}
 					}
 				}
 				for si, su := range suffixes {
@@ -595,7 +602,7 @@ func runC13(r *ev.Run) {
 		fmt.Fprintln(os.Stderr, "instrument error: the instrumented binary is missing; run through bin/check")
 		os.Exit(2)
 	}
-	scripts := c13Scripts()
+	scripts := c13Scripts(r.Thorough())
 	r.Set("scripts_in_grammar", len(scripts))
 	// quick: the key scripts plus a seed-rotated 1/24 of the grammar at bound 2, two scripts unbounded (capped);
 	// thorough: every script at bound 2, a seed-rotated 1/12 at bound 3, 16 scripts unbounded (capped)
